@@ -312,11 +312,11 @@ func prop(c Case) (err error) {
 					return nil, false
 				}
 				return ev, true
-			case <-pbt.After(d):
+			case <-pbt.Idle(d):
 				return nil, false
 			}
 		}
-		deadline := time.Now().Add(pbt.Scaled(d))
+		deadline := time.Now().Add(pbt.IdleDur(d))
 		for {
 			if s.HasPendingEvent() {
 				ev, ok := pollGuard()
@@ -438,7 +438,7 @@ func prop(c Case) (err error) {
 						return nil, false
 					}
 					return ev, true
-				case <-pbt.After(d):
+				case <-pbt.Idle(d):
 					return nil, false
 				}
 			}
